@@ -27,6 +27,8 @@ from laneflow import gtypes as G
 from laneflow import runner as R
 from laneflow import rulelib as L
 from laneflow import spec as S
+from laneflow.poly import Poly
+from fractions import Fraction
 from laneflow import order as O
 from laneflow import fclass as FC
 from laneflow import interp as I
@@ -521,6 +523,72 @@ def gtx_cases(T, tier):
     return cs
 
 
+# ---- roundEven on ties ---------------------------------------------------------------------------------------------------------------------------------
+
+def round_even_cases(T):
+    """roundEven returns the even neighbour on every tie: the four tie shapes x = +-(2k + 1/2), +-(2k + 3/2) with k a non-negative integer symbol
+    (and k = 0) are pushed through the code; floor / ceil of (integer-valued polynomial + constant) is the polynomial + floor / ceil of the constant,
+    comparisons are decided by signs.  Off ties the function returns round(x) (the library function, assumed to return a nearest integer)."""
+    from rules.c19_hsv import ConeCtx, Undetermined
+    import math
+    sc = G.scalar(T)
+    k = K('roundEven_ties_%s' % sc.tag, [Par('o', sc, False), Par('x', sc)], '*o = roundEven(*x);', CFG)
+    kv = K('roundEven_ties_v3_%s' % sc.tag, [Par('o', G.vec(3, T), False), Par('x', G.vec(3, T))], '*o = roundEven(*x);', CFG)
+    name = 'roundEven(ties)<%s>' % sc.tag
+    Ksym = Poly.atom(('sym', 'k'))
+
+    class IntCone(ConeCtx):
+        def _split(self, p):
+            c0 = p.t.get((), Fraction(0))
+            ip = p - Poly.const(c0)
+            if any(Fraction(cf).denominator != 1 for cf in ip.t.values()):
+                raise Undetermined('not an integer-valued polynomial plus a constant')
+            return ip, Fraction(c0)
+
+        def _fpoly(self, t):
+            if t.op == 'fn' and t.args[0] in ('floor', 'ceil', 'trunc'):
+                p = self.fpoly(t.args[1])
+                ip, c0 = self._split(p)
+                if t.args[0] == 'trunc':
+                    raise Undetermined('trunc of a symbolic value')
+                f = math.floor(c0) if t.args[0] == 'floor' else math.ceil(c0)
+                return ip + Poly.const(f)
+            if t.op == 'fn' and t.args[0] == 'round':
+                raise Undetermined('round() reached on a tie shape')
+            return super()._fpoly(t)
+
+    def judge(ctx):
+        res = []
+        for kern, lanes_ty, nm in ((k, sc, name), (kv, G.vec(3, T), name.replace('(ties)', '(ties, vec3)'))):
+            err = ctx.compile_error(kern)
+            if err:
+                res.append(R.ob(nm, 'existence', R.REFUTED, 'cannot be instantiated: ' + err, kernel=kern.source()))
+                continue
+            lanes = L.out_lanes(ctx, kern, lanes_ty)
+            for lane, t in sorted(lanes.items(), key=lambda q: str(q[0])):
+                xin = L.in_term('x', lanes_ty, lane)
+                for zero in (False, True):
+                    kk = Poly() if zero else Ksym
+                    for desc, xs, want in (('x = 2k + 1/2', kk.scale(2) + Poly.const(Fraction(1, 2)), kk.scale(2)),
+                                           ('x = 2k + 3/2', kk.scale(2) + Poly.const(Fraction(3, 2)), kk.scale(2) + Poly.const(2)),
+                                           ('x = -(2k + 1/2)', -(kk.scale(2) + Poly.const(Fraction(1, 2))), -kk.scale(2)),
+                                           ('x = -(2k + 3/2)', -(kk.scale(2) + Poly.const(Fraction(3, 2))), -(kk.scale(2) + Poly.const(2)))):
+                        oid = '%s[%s].%s%s' % (nm, lane, desc, ', k = 0' if zero else ', k >= 1')
+                        try:
+                            got = IntCone({xin: xs}).fpoly(t)
+                            d = got - want
+                            if d.is_zero():
+                                res.append(R.ob(oid, 'round_even_ties', R.PROVED, 'returns %s: the even neighbour' % P.show_poly(want), kernel=kern.source()))
+                            else:
+                                res.append(R.ob(oid, 'round_even_ties', R.REFUTED, 'returns %s on the tie %s; the even neighbour is %s (e.g. k = 1)' % (P.show_poly(got), desc, P.show_poly(want)), where=R.where_of(ctx.fn(kern), t), kernel=kern.source()))
+                        except Undetermined as e:
+                            res.append(R.ob(oid, 'round_even_ties', R.UNDECIDED, 'not decided: %s' % e, kernel=kern.source()))
+                        except (P.NonFinite, P.TooBig, P.NeedAtom) as e:
+                            res.append(R.ob(oid, 'round_even_ties', R.UNDECIDED, 'no normal form: %s' % type(e).__name__, kernel=kern.source()))
+        return res
+    return [R.Case(name, [k, kv], judge)]
+
+
 def cases(tier):
     cs = []
     cs += canaries()
@@ -533,6 +601,7 @@ def cases(tier):
         cs += idiom_cases(T)
         cs += range_cases(T)
         cs += gtx_cases(T, tier)
+        cs += round_even_cases(T)
     return cs
 
 
